@@ -78,7 +78,7 @@ def handleExtSel (req : Sexp) : Sexp :=
   let one (k : String) : Sexp := match fieldArgs req k with | [v] => v | _ => .atom ""
   let o := match field? req "opts" with | some x => optsOf x | none => {}
   let cands : List Cand := (fieldArgs req "cands").map (fun c => match args c with
-    | [n, fm, ob] => { name := sOf n, fullMatch := asBool fm, obj := objOf ob }
+    | [n, fm, ob] => { name := sOf n, fullMatch := asBool fm, obj := objOf ob, localCtx := (fieldArgs ob "localctx").map sOf }
     | _ => default)
   match selectExtend (asBool (one "literal")) (sOf (one "lit")) o cands with
   | .ok names => mkList "ok" (names.map strS)
@@ -93,7 +93,7 @@ def handleExtList (req : Sexp) : Sexp :=
     if head? e == some "entry" then
       let one (k : String) : Sexp := match fieldArgs e k with | [v] => v | _ => .atom ""
       let cands : List Cand := (fieldArgs e "cands").map (fun c => match args c with
-        | [n, fm, ob] => { name := sOf n, fullMatch := asBool fm, obj := objOf ob }
+        | [n, fm, ob] => { name := sOf n, fullMatch := asBool fm, obj := objOf ob, localCtx := (fieldArgs ob "localctx").map sOf }
         | _ => default)
       some { pkg := sOf (one "pkg"), literal := asBool (one "literal"), lit := sOf (one "lit"), cands := cands }
     else none)
